@@ -319,6 +319,9 @@ func runE1Case(rt *rapid.T, f *e1Focus) {
 	spec := genE1Spec(rt, f)
 	layout := rapid.Uint64().Draw(rt, "layoutSeed")
 	st, v := newE1(spec, layout, f)
+	if st != nil {
+		defer st.api.Release()
+	}
 	var hist []string
 	fail := func(v *Violation) {
 		writeReplay(v)
@@ -392,6 +395,7 @@ func replayE1(v *Violation) *Violation {
 		if nv != nil {
 			return nv
 		}
+		defer st.api.Release()
 		var hist []string
 		for _, o := range c.Ops {
 			if nv := st.step(o, &hist); nv != nil {
